@@ -2,7 +2,8 @@
 
 Proved (VCs over every function under contract): every implicit-exception exit (TypeError, IndexError, KeyError,
 AttributeError, ValueError from chr(), unpacking ...) is infeasible, and every `raise` is of a documented library class
-under exactly the documented condition - over the tagged-argument domain (wrong type, bool for int, None, float, negative,
+under exactly the documented condition (combinators, class forms, matching API, class constructors and operators,
+meta constructors) - over the tagged-argument domain (wrong type, bool for int, None, float, negative,
 inverted, bad name, too few arguments are REGIONS of that domain); emitted texts parse whenever the operands' do (SAME_TREE
 presupposes the emitted text parses).  Finite: every meta constructor over its flag domain compiles and exports.
 Bounded: B1 (validity / termination of __infer_type on emitted texts), B4 (get_pattern round trip), B2 (class text
@@ -15,8 +16,15 @@ LEVEL = "proof"
 
 
 def run(rep, tier):
+    import contracts
     funcs = GR.COMBINATORS + _g5.MATCHING + _g5.CACHE + _g5.CAPTURES + _g5.CONTEXT + _g5.SPLIT + _g5.FILES
-    vcrun.run_functions(rep, funcs, tier)
+    # the class layer (G8b, G9, G9b) and the meta constructors (G10): the same totality obligations - no implicit exception,
+    # every raise documented and under its documented condition - for all their arguments
+    extra = [q for q, c in contracts.ALL.items()
+             if (q.startswith("pregex.core.classes.") or q.startswith("pregex.meta.essentials."))
+             and "<locals>" not in q and not q.startswith("new:") and not c.get("inline") and not c.get("assumed")
+             and not c.get("bounded_only")]
+    vcrun.run_functions(rep, funcs + extra, tier)
     r = native("run_module", {"module": "pvc.bex_misc", "func": "meta_constructors"}, timeout=1800)
     rep.finite.append({"what": "meta constructors (Text, Whitespace, NonWhitespace, Word*, Numeral x 15 bases, Integer/Decimal families on "
                                "sample ranges, Date x 48 formats, IPv4, IPv6, Email, HttpUrl) over their flag domains: construct or "
